@@ -117,8 +117,16 @@ def empty(
     exit_x: int
 
     if random_exit:
-        exit_y = rng.integers(1, shape.height - 2, endpoint=True)
-        exit_x = rng.integers(1, shape.width - 2, endpoint=True)
+        # if not random, the agent is placed on (1, 1), which excludes the exit
+        exit_position = choice(
+            rng,
+            [
+                position
+                for position in grid.area.positions('inside')
+                if random_agent or position != Position(1, 1)
+            ],
+        )
+        exit_y, exit_x = exit_position.yx
     else:
         exit_y = shape.height - 2
         exit_x = shape.width - 2
